@@ -9,7 +9,7 @@ use temporal_rs::options::{Disambiguation, DisplayCalendar, DisplayOffset, Displ
 use temporal_rs::tzdb::FsTzdbProvider;
 use temporal_rs::{Calendar, Duration, Instant, PlainDateTime, TimeZone, ZonedDateTime};
 
-pub const ACTIONS: [&str; 15] = [
+pub const ACTIONS: [&str; 16] = [
     "ok: New_York getter",
     "ok: London add",
     "ok: Tokyo Instant::to_ixdtf_string",
@@ -25,6 +25,7 @@ pub const ACTIONS: [&str; 15] = [
     "a zone named in another letter case (america/new_york getter): the answer must not depend on what is cached",
     "a zone whose data file may not be installed yet (error while it is absent, ok afterwards)",
     "install that zone's data file, then call on it: an earlier failure must not stick",
+    "format a zoned value through Display while another thread holds the provider lock (and then panics): the text must come out",
 ];
 
 /// The zone whose data appears during a history: an absolute path under the temp dir, private to this process.
@@ -124,6 +125,30 @@ fn act(a: usize, shared: bool) -> String {
             let z = |_: ()| ZonedDateTime::try_new(t, Calendar::default(), TimeZone::IanaIdentifier("america/new_york".into())).unwrap();
             pick!(z(()).hour(), z(()).hour_with_provider(&p))
         }
+        15 => {
+            if shared {
+                let (tx, rx) = std::sync::mpsc::channel::<()>();
+                let b = std::thread::spawn(move || {
+                    let _ = rx.recv();
+                    use std::fmt::Write;
+                    let mut text = String::new();
+                    match write!(&mut text, "{}", zdt(1_636_263_000_001_002_003, "Europe/London")) {
+                        Ok(()) => format!("Ok({text:?})"),
+                        Err(_) => "Err(fmt::Error)".to_string(),
+                    }
+                });
+                let a = std::thread::spawn(move || {
+                    temporal_rs::verif_hooks::panic_while_holding_provider_lock_with(|| {
+                        let _ = tx.send(());
+                        std::thread::sleep(std::time::Duration::from_millis(120));
+                    })
+                });
+                let _ = a.join();
+                b.join().unwrap_or_else(|_| "formatting panicked".into())
+            } else {
+                format!("{:?}", zdt(t, "Europe/London").to_string_with_provider(&p).map_err(|e| (e.kind(), e.message().to_string())))
+            }
+        }
         13 | 14 => {
             let path = late_zone_path();
             if a == 14 && shared && !path.exists() {
@@ -167,7 +192,7 @@ impl Space for Histories {
     fn eval(&self, i: u64, out: &mut Out) {
         let h = unrank(i, &vec![ACTIONS.len() as u64; self.depth as usize]);
         let hs: Vec<String> = h.iter().map(|x| x.to_string()).collect();
-        let has_fault = h.iter().any(|a| (*a >= 5 && *a <= 9) || *a == 11);
+        let has_fault = h.iter().any(|a| (*a >= 5 && *a <= 9) || *a == 11 || *a == 15);
         if has_fault {
             out.nontrivial += 1;
         }
@@ -179,7 +204,7 @@ impl Space for Histories {
                 ("history", format!("{:?}", h)),
                 ("step", k.to_string()),
                 ("action", ACTIONS[h[k]].to_string()),
-                ("after_panic", h[..k].iter().any(|a| *a == 8 || *a == 9 || *a == 11).to_string()),
+                ("after_panic", h[..k].iter().any(|a| *a == 8 || *a == 9 || *a == 11 || *a == 15).to_string()),
                 ("after_error", h[..k].iter().any(|a| (5..=7).contains(a)).to_string()),
                 ("earlier_calls", format!("{before:?}")),
             ]
@@ -204,9 +229,9 @@ impl Space for Histories {
         for (k, s) in steps.iter().enumerate() {
             let same = s["same"].as_bool().unwrap_or(false);
             out.lockstep("call returns what it returns alone", &Ok(s["want"].as_str().unwrap_or("").to_string()), &Oc::Ok(s["got"].as_str().unwrap_or("").to_string()), |a, b| a == b && same, || attrs(k));
-            state.0 |= h[k] == 8 || h[k] == 9 || h[k] == 11;
+            state.0 |= h[k] == 8 || h[k] == 9 || h[k] == 11 || h[k] == 15;
             state.1.push(h[k]);
-            out.state(&(state.0, { let mut z: Vec<usize> = state.1.iter().filter(|a| **a < 5 || **a >= 10).map(|a| [0, 1, 2, 0, 3, 9, 9, 9, 9, 9, 1, 1, 9, 4, 4][*a]).collect(); z.sort(); z.dedup(); z }));
+            out.state(&(state.0, { let mut z: Vec<usize> = state.1.iter().filter(|a| **a < 5 || **a >= 10).map(|a| [0, 1, 2, 0, 3, 9, 9, 9, 9, 9, 1, 1, 9, 4, 4, 1][*a]).collect(); z.sort(); z.dedup(); z }));
         }
         if out.want_sample() && has_fault && h.len() >= 2 && h[0] == 8 {
             out.sample(json!({"history": h.iter().map(|a| ACTIONS[*a]).collect::<Vec<_>>()}));
